@@ -20,7 +20,9 @@ func (propC09) ID() string { return "C09" }
 
 var c09Strategies = []string{"strict", "optimistic", "discovery"}
 var c09Fallbacks = []string{"compatible_only", "none", "all"}
-var c09Models = []string{"alpha-7b", "gamma:latest", "delta/Instruct-Q4", "Beta-Mixed:Q4"}
+
+// the alphabet has sibling tags of one base name: "gamma:7b" is not "gamma:70b"
+var c09Models = []string{"alpha-7b", "gamma:latest", "delta/Instruct-Q4", "Beta-Mixed:Q4", "gamma:7b", "gamma:70b"}
 
 func (propC09) Gen(seed uint64, tier string, idx int) *Plan {
 	r := newR(seed, "C09", idx)
@@ -139,6 +141,16 @@ func (propC09) Gen(seed uint64, tier string, idx int) *Plan {
 func (propC09) Prepare(r *Run) {}
 func (propC09) AtEnd(r *Run)   {}
 
+func c09Tag(s string) string {
+	if i := strings.LastIndex(s, "/"); i >= 0 {
+		s = s[i+1:]
+	}
+	if i := strings.LastIndex(s, ":"); i > 0 {
+		return s[i+1:]
+	}
+	return ""
+}
+
 func c09Stem(s string) string {
 	s = strings.ToLower(s)
 	if i := strings.LastIndex(s, "/"); i >= 0 {
@@ -196,7 +208,9 @@ func (propC09) Check(r *Run) []Violation {
 				if strings.EqualFold(name, model) {
 					listsExact[ep.Name] = true
 				}
-				if c09Stem(name) == c09Stem(model) {
+				// same base name counts as "lists something like it" (the registry keeps tag-less aliases)
+				// unless both spellings carry a tag and the tags differ: that is another model
+				if c09Stem(name) == c09Stem(model) && (c09Tag(name) == "" || c09Tag(model) == "" || strings.EqualFold(c09Tag(name), c09Tag(model))) {
 					listsGenerous[ep.Name] = true
 				}
 			}
